@@ -124,7 +124,7 @@ CHECKS = {
     "C16": (
         "E2",
         "bounded-exhaustive enumeration of unannotated function bodies; for each accepted body the printed signature is re-declared with the original body in a second session and every argument tuple of a value alphabet is called on both definitions (differential oracle on the real type checker and VM)",
-        "Every unannotated body with <= 2 operator nodes over leaves {x, 2} / {x, y, 2} (unary -, ^e for e in {2,3,-1,1/2,1/3,1/5,2/3}, sqrt, sqr, abs, cbrt; binary * / + hypot2 mean head; conditionals) plus every binary operator over two one-node operands (thorough: full unary set, conditionals over them, every unary of a two-node body; 58 k quick / 265 k thorough bodies): the signature the checker prints must be accepted as annotation of the same body, print the same signature again, and for every tuple of argument values (Scalar, Length, Length², Time, Bool, polymorphic 0; thorough + Velocity, Mass, 1/Time, Length^15) both definitions must accept/reject alike with the same result type and bit-equal value.",
+        "Every unannotated body with <= 2 operator nodes over leaves {x, 2} / {x, y, 2} (unary -, ^e for e in {2,3,-1,1/2,1/3,1/5,2/3,0}, sqrt, sqr, abs, cbrt; binary * / + hypot2 mean head; conditionals) plus every binary operator over two one-node operands (thorough: full unary set, conditionals over them, every unary of a two-node body; 58 k quick / 265 k thorough bodies): the signature the checker prints must be accepted as annotation of the same body, print the same signature again, and for every tuple of argument values (Scalar, Length, Length², Time, Bool, polymorphic 0; thorough + Velocity, Mass, 1/Time, Length^15) both definitions must accept/reject alike with the same result type and bit-equal value.",
         "Trusted: the signature is the text before ` = ` of the echoed definition; sessions load only the five modules the alphabet needs; polymorphic dimension results (calls with the literal 0) are compared up to renaming/rescaling of quantified variables; bounded by the body size and the alphabets.",
         "§4 C16",
     ),
